@@ -1,1 +1,75 @@
-From BW Require Import SpecList.
+(* C05 - tag syntax: attributes round-trip, look-alikes are ignored.
+   Property theorems only; proofs are in coq/proofs. *)
+From BW Require Import SpecTag.
+From BWP Require Import TextFacts Tag_proofs.
+
+(* Every start tag written as <block + whitespace-separated attributes (bare names, bare / single- / double-quoted values, any ASCII whitespace around = and before >, values containing > < = and the other quote, any alphanumeric incl. Unicode in names) parses to exactly those names and values, in order (duplicates: the map keeps the last), whatever text follows. *)
+Theorem C05_start_roundtrip : forall ps wend rest,
+  Forall wf_pattr ps -> mspace_str wend ->
+  parse_start_tag (print_start ps wend ++ rest) = Some (map attr_of ps, rest).
+Proof. exact start_roundtrip. Qed.
+Print Assumptions C05_start_roundtrip.
+
+(* End tags tolerate inner whitespace. *)
+Theorem C05_end_roundtrip : forall w1 w2 w3 rest,
+  mspace_str w1 -> mspace_str w2 -> mspace_str w3 ->
+  parse_end_tag (print_end w1 w2 w3 ++ rest) = Some rest.
+Proof. exact end_roundtrip. Qed.
+Print Assumptions C05_end_roundtrip.
+
+(* ...and nothing else is an end tag. *)
+Theorem C05_end_sound : forall s rest,
+  parse_end_tag s = Some rest ->
+  exists w1 w2 w3, mspace_str w1 /\ mspace_str w2 /\ mspace_str w3 /\
+                   s = print_end w1 w2 w3 ++ rest.
+Proof. exact end_sound. Qed.
+Print Assumptions C05_end_sound.
+
+(* Everything accepted as a start tag is of the printed form: look-alikes are never taken for block tags. *)
+Theorem C05_start_sound : forall s a rest,
+  parse_start_tag s = Some (a, rest) ->
+  exists ps wend, Forall wf_pattr ps /\ mspace_str wend /\
+                  s = print_start ps wend ++ rest /\ a = map attr_of ps.
+Proof. exact start_sound. Qed.
+Print Assumptions C05_start_sound.
+
+(* <Block, < block, <BLOCK ... are not start tags. *)
+Theorem C05_needs_prefix : forall s,
+  strip_prefix (T "<block") s = None -> parse_start_tag s = None.
+Proof. exact start_needs_prefix. Qed.
+Print Assumptions C05_needs_prefix.
+
+(* <blockquote>, <block/>, <blocks>, <block-x> are not start tags. *)
+Theorem C05_needs_boundary : forall c rest,
+  is_mspace c = false -> c <> C_GT -> parse_start_tag (T "<block" ++ c :: rest) = None.
+Proof. exact start_needs_boundary. Qed.
+Print Assumptions C05_needs_boundary.
+
+(* A start tag whose quote is never closed in the comment is rejected, whatever precedes it. *)
+Theorem C05_unclosed_quote : forall ps ws n w1 w2 q s,
+  Forall wf_pattr ps -> ws <> [] -> mspace_str ws -> name_str n ->
+  mspace_str w1 -> mspace_str w2 -> (q = C_DQ \/ q = C_SQ) -> ~ In q s ->
+  parse_start_tag (T "<block" ++ print_attrs ps ++ ws ++ n ++ w1 ++ [C_EQ] ++ w2 ++ [q] ++ s) = None.
+Proof. exact unclosed_quote_rejected. Qed.
+Print Assumptions C05_unclosed_quote.
+
+(* A tag is found wherever it sits: after any text in which no < begins a block tag, at its byte offset, with the cursor just after it. *)
+Theorem C05_scan_finds_start : forall noise ps wend post off,
+  foreign noise -> Forall wf_pattr ps -> mspace_str wend ->
+  scan_tag (noise ++ print_start ps wend ++ post) off =
+    Some (TStart (off + blen noise) (off + blen noise + blen (print_start ps wend)) (map attr_of ps),
+          post, off + blen noise + blen (print_start ps wend)).
+Proof. exact scan_finds_start. Qed.
+Print Assumptions C05_scan_finds_start.
+
+Theorem C05_scan_finds_end : forall noise w1 w2 w3 post off,
+  foreign noise -> mspace_str w1 -> mspace_str w2 -> mspace_str w3 ->
+  scan_tag (noise ++ print_end w1 w2 w3 ++ post) off =
+    Some (TEnd (off + blen noise), post, off + blen noise + blen (print_end w1 w2 w3)).
+Proof. exact scan_finds_end. Qed.
+Print Assumptions C05_scan_finds_end.
+
+(* Text without block tags yields no tag. *)
+Theorem C05_scan_none : forall noise off, foreign noise -> scan_tag noise off = None.
+Proof. exact scan_none. Qed.
+Print Assumptions C05_scan_none.
